@@ -1,5 +1,5 @@
 """Property -> rules mapping."""
-from .rules import cfg, conv, det, errsel, fmtdec, fmtparse, hdr, hyg, idx, ops, rawid, shape
+from .rules import cfg, conv, det, errsel, fmtdec, fmtparse, hdr, hyg, idx, ops, rawid, shape, split
 
 PROPS = {}
 
@@ -104,3 +104,5 @@ prop("C11", [shape.rule_accessors, errsel.rule_view_defs, idx.rule_idx_space, ra
 prop("C12", [shape.rule_tpl_prec, shape.rule_discriminants, hdr.rule_tpl_hdr, rawid.rule_raw_id], meta={"explanation": "wip"})
 prop("C13", [shape.rule_from_str, rawid.rule_raw_id], meta={"explanation": "wip"})
 prop("C14", [shape.rule_delegation, errsel.rule_view_defs, idx.rule_idx_space], meta={"explanation": "wip"})
+
+prop("C16", [split.rule_split_table, split.rule_alias_test, fmtdec.rule_tpl_verb], meta={"explanation": "wip"})
